@@ -71,8 +71,10 @@ pub fn map_with_layout(layout: [u16; 8]) -> ReversePurgeItemHashMap<u64> {
     while i < N {
         let st = layout[i];
         if st > 0 {
-            let k: u64 = kani::any();
-            kani::assume((k as usize) < D);
+            // keys are named in slot order (0, 1, 2, ...): which key sits where does not matter - the code
+            // only compares keys for equality and looks up their (symbolic) home slots - so this is a
+            // renaming, not a restriction; it keeps key comparisons concrete
+            let k: u64 = n_active as u64;
             let v: u64 = kani::any();
             kani::assume(v >= 1 && v < (1u64 << 60));
             keys.push(Some(k));
@@ -240,8 +242,8 @@ fn c07_map_adjust_step() {
 }
 
 //@ props: C07 C17
-//@ tier: quick
-//@ timeout: 900
+//@ tier: thorough
+//@ timeout: 1800
 //@ functions: frequencies::ReversePurgeItemHashMap::hash_delete
 //@ bounds: table of 8 slots, every invariant-satisfying layout with <= 7 active keys, every occupied delete position
 //@ assumes: representation invariant of the probing table (map_invariant)
@@ -287,8 +289,32 @@ fn purge_case(layout: [u16; 8]) {
         }
         i += 1;
     }
+    let mut before = [0u64; 8];
+    let mut i = 0;
+    while i < N {
+        if m.states[i] > 0 {
+            before[i] = m.values[i];
+        }
+        i += 1;
+    }
     let med = m.purge(6);
     assert!(med >= 1, "purge subtracted nothing");
+    // the contract used by the sketch-level (abstract map) harnesses: the median is one of the values and
+    // at least limit - mid = 3 values are >= it
+    let mut ge = 0;
+    let mut is_value = false;
+    let mut i = 0;
+    while i < N {
+        if before[i] > 0 && before[i] >= med {
+            ge += 1;
+        }
+        if before[i] == med {
+            is_value = true;
+        }
+        i += 1;
+    }
+    assert!(is_value, "purge subtracted something that is not one of the counters");
+    assert!(ge >= 3, "fewer than limit - mid counters are >= the subtracted median");
     assert!(map_invariant(&m), "probing invariant broken by purge");
     assert!(model_get(&m, x) == before_x.saturating_sub(med), "counter is not old (-) median");
     assert!(m.get(&x) == before_x.saturating_sub(med));
@@ -335,7 +361,119 @@ macro_rules! purge_layout {
 //@ assumes: representation invariant of the probing table (map_invariant)
 //@ replay_stub: frequencies/reverse_purge_item_hash_map.rs | fn hash_item<T: Hash>(item: &T) -> u64 { | return self::verif_kani_frequencies_map::verif_hash_item(item);
 //@ desc: purge(6) returns m >= 1 such that every key's value becomes value (-) m (saturating), keys with value <= m disappear, the counters lose at least 3 medians of weight (amortisation), at most 6 keys remain, invariant preserved
-purge_layout!(c07_map_purge_flat, LAYOUT_7_FLAT); //@ tier: quick
-purge_layout!(c07_map_purge_clusters, LAYOUT_7_CLUSTERS); //@ tier: quick
+purge_layout!(c07_map_purge_flat, LAYOUT_7_FLAT);
+purge_layout!(c07_map_purge_clusters, LAYOUT_7_CLUSTERS);
 purge_layout!(c07_map_purge_wrap, LAYOUT_7_WRAP);
 //@ endfamily: x
+
+// ---------------------------------------------------------------------------------------------
+// Abstract map: the contract of the map operations, used (as stubs) by the sketch-level harnesses.
+// The contracts are the statements the map-level harnesses above establish for the real code:
+//   adjust_or_put_value(k, a): value(k) += a, every other key unchanged           (c07_map_adjust_step)
+//   get(k): the key's value, 0 if absent                                           (c07_map_adjust_step)
+//   purge(s): returns m = one of the current values with at least (limit - mid) values >= m,
+//             limit = min(s, active, 1024), mid = limit / 2; every value becomes value (-) m   (c07_map_purge_*)
+// A map whose `load_threshold` field carries ABS_TAG is abstract (its counters live in ABS); any other map
+// is handled by re-implementations of the real lookups (only `other` of merge(), which is just iterated).
+// ---------------------------------------------------------------------------------------------
+pub const ABS_TAG: usize = 0xAB5;
+pub static mut ABS: [u64; D] = [0; D];
+
+pub fn id_of<T: Hash>(item: &T) -> usize {
+    let mut h = IdHasher(0);
+    item.hash(&mut h);
+    let id = h.0 as usize;
+    assert!(id < D, "verif: key outside the harness domain");
+    id
+}
+
+pub fn abs_map() -> ReversePurgeItemHashMap<u64> {
+    // the real arrays are never consulted for an abstract map
+    ReversePurgeItemHashMap {
+        lg_length: 3,
+        load_threshold: ABS_TAG,
+        keys: Vec::new(),
+        values: Vec::new(),
+        states: Vec::new(),
+        num_active: 0,
+    }
+}
+
+pub fn abs_adjust_or_put_value<T: Eq + Hash>(m: &mut ReversePurgeItemHashMap<T>, key: T, adjust_amount: u64) {
+    assert!(m.load_threshold == ABS_TAG, "verif: adjust_or_put_value on a non-abstract map in an abstract harness");
+    let id = id_of(&key);
+    unsafe {
+        ABS[id] += adjust_amount;
+    }
+    core::mem::forget(key);
+}
+
+pub fn abs_get<T: Eq + Hash>(m: &ReversePurgeItemHashMap<T>, key: &T) -> u64 {
+    let id = id_of(key);
+    if m.load_threshold == ABS_TAG {
+        unsafe { ABS[id] }
+    } else {
+        // a real (concrete-layout) map: linear scan, equivalent to probing under the table invariant
+        let mut i = 0;
+        while i < m.keys.len() {
+            if m.states[i] > 0 {
+                if let Some(k) = &m.keys[i] {
+                    if id_of(k) == id {
+                        return m.values[i];
+                    }
+                }
+            }
+            i += 1;
+        }
+        0
+    }
+}
+
+pub fn abs_num_active<T>(m: &ReversePurgeItemHashMap<T>) -> usize {
+    if m.load_threshold == ABS_TAG {
+        let mut n = 0;
+        let mut i = 0;
+        while i < D {
+            if unsafe { ABS[i] } > 0 {
+                n += 1;
+            }
+            i += 1;
+        }
+        n
+    } else {
+        m.num_active
+    }
+}
+
+pub fn abs_purge<T: Eq + Hash>(m: &mut ReversePurgeItemHashMap<T>, sample_size: usize) -> u64 {
+    assert!(m.load_threshold == ABS_TAG, "verif: purge on a non-abstract map in an abstract harness");
+    let active = abs_num_active(m);
+    let mut limit = if sample_size < active { sample_size } else { active };
+    if limit > 1024 {
+        limit = 1024;
+    }
+    let mid = limit / 2;
+    let med: u64 = kani::any();
+    let mut ge = 0usize;
+    let mut is_value = false;
+    let mut i = 0;
+    while i < D {
+        let v = unsafe { ABS[i] };
+        if v > 0 && v >= med {
+            ge += 1;
+        }
+        if v > 0 && v == med {
+            is_value = true;
+        }
+        i += 1;
+    }
+    kani::assume(med >= 1 && is_value && ge >= limit - mid);
+    let mut i = 0;
+    while i < D {
+        unsafe {
+            ABS[i] = ABS[i].saturating_sub(med);
+        }
+        i += 1;
+    }
+    med
+}
